@@ -40,13 +40,20 @@ def check_belt(h):
     if not recs:
         return
     lab = ()
+    waited = any(r.avail_t is not None and (r.got_t is None or r.got_t > r.avail_t) for r in recs)
+    octx = ",after-stall" if waited else ",no-stall"
     # ---------------- C12
-    gets = sorted([r for r in recs if r.got_t is not None], key=lambda r: r.got_seq)
-    if [r.name for r in gets] != [r.name for r in recs][:len(gets)]:
-        h.violate("C12", "order", f"items entered in order {[r.name for r in recs]} but left in order {[r.name for r in gets]}", feat=lab)
+    # exit order: a consumer holding several granted retrievals may use them in any order, so items are compared in
+    # the order in which their retrievals were granted (one retrieval at a time = plain order of the gets)
+    tok_of = {x[3]: h.toks[x[4]] for x in h.hist if x[0] == "get"}
+    gets = sorted([r for r in recs if r.got_t is not None], key=lambda r: tok_of[r.name].granted_seq)
+    pos = {r.name: i for i, r in enumerate(recs)}
+    seq = [pos[r.name] for r in gets]
+    if seq != sorted(seq):
+        h.violate("C12", "order", f"items entered in order {[r.name for r in recs]} but were handed to successive retrievals in order {[r.name for r in gets]}", feat=lab, extra=octx)
     offs = sorted([r for r in recs if r.avail_t is not None], key=lambda r: r.avail_seq)
     if [r.name for r in offs] != [r.name for r in recs][:len(offs)]:
-        h.violate("C12", "offer-order", f"items entered in order {[r.name for r in recs]} but reached the exit in order {[r.name for r in offs]}", feat=lab)
+        h.violate("C12", "offer-order", f"items entered in order {[r.name for r in recs]} but reached the exit in order {[r.name for r in offs]}", feat=lab, extra=octx)
     for a, b in zip(recs, recs[1:]):
         if b.put_t - a.put_t < slot - EPS:
             h.violate("C12", "spacing", f"{b.name} entered at {b.put_t}, only {b.put_t - a.put_t} after {a.name} (one item length of travel = {slot})", feat=lab)
